@@ -444,7 +444,9 @@ class ModelVisitor:
                         zero_missing.append((group, item))
             else:
                 if group.is_missing(occurs) or group.is_exceeded(occurs):
-                    if occurs[group] or not stack:
+                    if not stack and not occurs[group] and self.group.is_emptiable():
+                        pass  # an optional reference to the 'all' group that doesn't occur
+                    elif occurs[group] or not stack:
                         yield group, occurs[group], group.get_expected(occurs)
                     else:
                         zero_missing.append((stack[-1][0], group))
